@@ -1,37 +1,41 @@
 #!/usr/bin/env python3
-"""usage: patch2mutant.py <patch.diff> <name> <property> <expect_rule>  -> prints one mutant JSON object.
-Each hunk becomes one edit: old = context + removed lines, new = context + added lines."""
-import json, re, sys
-patch, name, prop, rule = sys.argv[1:5]
-edits = []
-cur = None
-old = new = None
+"""patch2mutant.py <name> <property> <expect_rule> <patch.diff> [note]
+Turns a unified diff against /repo into a mutant entry (textual old/new edits, one per hunk) in mutants/<property>.json.
+Every hunk's old text must be unique in its file."""
+import json,re,sys
+name,prop,expect,patch=sys.argv[1:5]
+note=sys.argv[5] if len(sys.argv)>5 else None
+R='/repo/'
+edits=[];cur=None;old=new=None
 def flush():
-    global old, new
-    if old is not None and (old != new):
-        edits.append({"file": cur, "old": "".join(old), "new": "".join(new)})
-    old = new = None
+    global old,new
+    if old is not None and cur:
+        edits.append({'file':cur,'old':''.join(old),'new':''.join(new)})
+    old=new=None
 for line in open(patch):
-    if line.startswith("diff --git"):
-        flush(); continue
-    if line.startswith("+++ b/"):
-        cur = line[6:].strip(); continue
-    if line.startswith("--- ") or line.startswith("index ") or line.startswith("new file") or line.startswith("deleted file"):
+    if line.startswith('diff --git'):
+        flush();cur=None
+    elif line.startswith('+++ '):
+        cur=line[4:].strip()
+        if cur.startswith('b/'): cur=cur[2:]
+    elif line.startswith('--- ') or line.startswith('index ') or line.startswith('new file') or line.startswith('\\'):
         continue
-    if line.startswith("@@"):
-        flush(); old, new = [], []; continue
-    if old is None:
-        continue
-    if line.startswith("+"):
-        new.append(line[1:])
-    elif line.startswith("-"):
-        old.append(line[1:])
-    elif line.startswith(" ") or line == "\n":
-        old.append(line[1:] if line.startswith(" ") else line); new.append(line[1:] if line.startswith(" ") else line)
-    elif line.startswith("\\"):
-        pass
+    elif line.startswith('@@'):
+        flush();old=[];new=[]
+    elif old is not None:
+        if line.startswith('-'): old.append(line[1:])
+        elif line.startswith('+'): new.append(line[1:])
+        else:
+            t=line[1:] if line.startswith(' ') else line
+            old.append(t);new.append(t)
 flush()
-m = {"name": name, "property": prop, "file": edits[0]["file"], "old": edits[0]["old"], "new": edits[0]["new"], "expect_rule": rule}
-if len(edits) > 1:
-    m["edits"] = edits[1:]
-print(json.dumps(m))
+for e in edits:
+    src=open(R+e['file']).read()
+    assert src.count(e['old'])==1,(e['file'],e['old'][:60],src.count(e['old']))
+f='/verif/mutants/%s.json'%prop
+ms=[m for m in json.load(open(f)) if m['name']!=name]
+m={'name':name,'property':prop,'file':edits[0]['file'],'old':edits[0]['old'],'new':edits[0]['new'],'expect_rule':expect}
+if len(edits)>1: m['edits']=edits[1:]
+if note: m['note']=note
+ms.append(m);json.dump(ms,open(f,'w'),indent=1)
+print(name,'added with',len(edits),'edit(s)')
